@@ -1,7 +1,7 @@
 (* C12 -- moving an allocator transfers all its memory; the moved-from object is harmless.  Statements only.
    Move.v: objects in slots own upstream blocks; move construction, move assignment, swap, growth, destruction. *)
 From Coq Require Import ZArith List Bool Permutation.
-From FM Require Import Move MoveProofs.
+From FM Require Import Move MoveProofs DeepTracker DeepTrackerProofs.
 Import ListNotations.
 Local Open Scope Z_scope.
 
@@ -50,3 +50,21 @@ Example C12_nonvacuous :
   mrun [] [MNew 0 [100]; MGrow 0 [200]; MNew 1 [300]; MMoveAssign 0 1; MMoveCons 1 2; MSwap 0 2; MNew 3 [400]; MMoveAssign 3 2; MDel 0; MDel 1; MDel 2; MDel 3]
   = Some ([SEmpty; SEmpty; SEmpty; SEmpty], [300; 200; 100; 400]).
 Proof. vm_compute. reflexivity. Qed.
+
+(* ---- deeply tracked allocators: the pointer the block source deep inside holds to the tracker (DeepTracker.v) ---- *)
+(* after every history of constructions, move constructions, move assignments, swaps (through a temporary) and destructions
+   each object's deep pointer refers to the tracker inside that very object: growth and shrinking are never reported to the
+   tracker of a moved-from, destroyed or temporary object, and never to none *)
+Theorem C12_deep_tracker_follows_every_move : forall os w k m, dt_run true tw_empty os = Some w -> w k = TObj (Some m) -> m = k /\ w m <> TEmpty.
+Proof. exact deep_pointer_never_dangles. Qed.
+Print Assumptions C12_deep_tracker_follows_every_move.
+
+Theorem C12_deep_tracker_never_null : forall os w k, dt_run true tw_empty os = Some w -> w k <> TObj None.
+Proof. exact deep_pointer_never_null. Qed.
+Print Assumptions C12_deep_tracker_never_null.
+
+(* the statement is about the set_tracker call in the move assignment: without it the model reports to a destroyed object *)
+Theorem C12_deep_tracker_needs_the_repointing_refuted :
+  exists w, dt_run false tw_empty [TNew 0; TNew 1; TMoveAssign 0 1; TDel 0]%nat = Some w /\ w 1%nat = TObj (Some 0%nat) /\ w 0%nat = TEmpty.
+Proof. exact moveassign_without_repoint_refuted. Qed.
+Print Assumptions C12_deep_tracker_needs_the_repointing_refuted.
